@@ -72,7 +72,15 @@ type sPubEntry struct {
 	x *big.Int
 }
 
+// heldBuf is a byte slice the library returned earlier and the caller still
+// holds: whatever the library does later, it must keep its content.
+type heldBuf struct {
+	what     string
+	buf, was []byte
+}
+
 type machine struct {
+	held  []heldBuf
 	t     *rapid.T
 	pts   [nPts]*secp256k1.Point
 	pinit [nPts]bool
@@ -298,6 +306,7 @@ func (m *machine) checkPubKey(what string, k *secec.PublicKey, q ref.Pt) {
 	if b := k.Bytes(); !bytes.Equal(b, q.Uncompressed()) {
 		m.fatalf("%s: Bytes() changed after the caller modified a returned slice: %x", what, b)
 	}
+	m.hold("public key ASN1Bytes()", k.ASN1Bytes())
 }
 
 func (m *machine) checkPubKeyFull(what string, k *secec.PublicKey, q ref.Pt) {
@@ -417,7 +426,22 @@ func (m *machine) checkSPub(i int) {
 }
 
 // invariant runs after every step.
+// hold keeps a returned slice (up to 6 of them; the oldest is scribbled on and
+// dropped) so that the invariant can see a later call writing into it.
+func (m *machine) hold(what string, b []byte) {
+	if len(m.held) >= 6 {
+		scramble(m.held[0].buf)
+		m.held = m.held[1:]
+	}
+	m.held = append(m.held, heldBuf{what, b, append([]byte(nil), b...)})
+}
+
 func (m *machine) invariant() {
+	for _, h := range m.held {
+		if !bytes.Equal(h.buf, h.was) {
+			m.fatalf("a %s the library returned earlier (%x) was overwritten by a later call: now %x", h.what, h.was, h.buf)
+		}
+	}
 	for i := 0; i < nPts; i++ {
 		if !m.pinit[i] {
 			if lib.Catch(func() { m.pts[i].IsIdentity() }) == nil {
@@ -435,7 +459,11 @@ func (m *machine) invariant() {
 		if msg := pointInvalid(m.pts[i]); msg != "" {
 			m.fatalf("point slot %d is not a valid object: %s", i, msg)
 		}
-		scramble(u)
+		if i == nPts-1 {
+			m.hold("point UncompressedBytes()", u)
+		} else {
+			scramble(u)
+		}
 	}
 	for i := 0; i < nScs; i++ {
 		b := m.scs[i].Bytes()
@@ -561,6 +589,24 @@ func propMachine(t *rapid.T) {
 				return
 			}
 			m.pts[r], m.pinit[r], m.mp[r] = secp256k1.NewPointFrom(m.pts[a]), true, m.mp[a]
+		},
+		"assign-by-value": func(t *rapid.T) {
+			// plain Go struct assignment (`*dst = *src`, what `var p Point; p = *q` does): the types carry no
+			// noCopy marker and hold their coordinates by value, so the copy must be an independent object --
+			// nothing reachable from it may be shared with the source
+			if rapid.Bool().Draw(t, "scalar") {
+				r, a := m.sslot("r"), m.sslot("a")
+				m.log("assign-by-value scalar r%d = *a%d", r, a)
+				fresh := new(secp256k1.Scalar)
+				*fresh = *m.scs[a]
+				m.scs[r], m.ms[r] = fresh, new(big.Int).Set(m.ms[a])
+				return
+			}
+			r, a := m.pslot("r"), m.pslot("a")
+			m.log("assign-by-value point r%d = *a%d", r, a)
+			fresh := new(secp256k1.Point)
+			*fresh = *m.pts[a]
+			m.pts[r], m.pinit[r], m.mp[r] = fresh, m.pinit[a], m.mp[a]
 		},
 		"identity-generator": func(t *rapid.T) {
 			r := m.pslot("r")
@@ -1205,7 +1251,7 @@ func propMachine(t *rapid.T) {
 			if err != nil || !bytes.Equal(sec, want) {
 				m.fatalf("ECDH(%x, %v) = %x (%v), model %x", m.privs[i].d, m.pubs[j].q, sec, err, want)
 			}
-			scramble(sec)
+			m.hold("ECDH shared secret", sec)
 		},
 		"sign-verify": func(t *rapid.T) {
 			if len(m.privs) == 0 {
@@ -1241,7 +1287,7 @@ func propMachine(t *rapid.T) {
 			if !ok || !ref.ECDSAVerify(e.q, keep, r, s) {
 				m.fatalf("signature by key %x is not valid for the model key: %x", e.d, sig)
 			}
-			scramble(sig)
+			m.hold(fmt.Sprintf("signature (encoding %d)", enc), sig)
 		},
 		"": func(t *rapid.T) { m.invariant() },
 	}
